@@ -124,12 +124,16 @@ CRB = "one well-formed upload (size <= 2 MiB) into an empty cache, killed at fil
 h("VerifCrashPutCasRaw", D, CR, CRB % 8, "kill during an upload (uncompressed CAS): restart succeeds, acknowledged data served, nothing torn served", unwind=24, switches=-1)
 h("VerifCrashPutAC", D, CR, CRB % 8, "kill during an upload (AC)", unwind=24, switches=-1)
 h("VerifCrashPutCasZstd", D, CR, CRB % 14, "kill during an upload (compressed CAS): restart succeeds, sizes agree; a file whose table is not finalised is rejected by readHeader", unwind=24, switches=-1)
+h("VerifCrashPutCasZstdBad", D, CR, CRB % 14 + "; the stream has the declared length but differs from the blob at a symbolic byte", "kill during an upload that is being refused (wrong bytes, compressed CAS): never acknowledged, never served after the restart", unwind=24, switches=-1)
 h("VerifCrashFetchCasZstd", D, CR, "backend fetch of a 1 500 000-byte blob in compressed CAS mode, casblob file of symbolic length 46..4 MiB with a valid finalised header, killed at step 0..8 with an arbitrary prefix of the interrupted write on disk; restart; read raw or as zstd, size known or unknown", "kill during a backend fetch: restart succeeds, a file cut short is never served, a completed fetch is served", unwind=24, switches=-1)
+h("VerifCrashFetchCasRaw", D, CR, "backend fetch of a blob of symbolic size 46..4 MiB stored uncompressed, killed at step 0..8 with an arbitrary prefix of the interrupted write on disk; restart; read with size known or unknown", "kill during a backend fetch (uncompressed CAS)", unwind=24, switches=-1)
+h("VerifCrashFetchAC", D, CR, "as VerifCrashFetchCasRaw for an action-cache entry", "kill during a backend fetch (AC)", unwind=24, switches=-1)
 
 CC = ["zz_verif_conc.go", "zz_verif_put.go"]
 CCB = "two goroutines, <= %d preemptions at mutex acquisitions / file-system steps / channel operations (round-robin at blocking points); sizes symbolic"
 h("VerifConcReadersCorrupt", D, CC, CCB % 2 + "; 1..2 entries, the one read is too short to hold a header", "two concurrent readers of a corrupt entry: not served, dropped once, accounting and directory exact at quiescence", unwind=24, switches=2)
 h("VerifConcReadOverwrite", D, CC, CCB % 2 + "; one AC entry, reader with known or unknown size, overwriting upload of 1..2^30 bytes", "a reader concurrent with an overwrite gets a miss or one whole version; C03/C04 at quiescence; no goroutine or file left", unwind=24, switches=2)
+h("VerifConcReadOverwriteEvict", D, CC, CCB % 2 + "; one AC entry, reader with known or unknown size, overwriting upload, the background remover as a third goroutine (one batch), no space pressure", "as VerifConcReadOverwrite, including the slow path taken when the replaced file vanishes between index lookup and open", unwind=24, switches=2)
 h("VerifConcCorruptReadPut", D, CC, CCB % 2 + "; one corrupt compressed CAS entry, a reader and a re-upload of the same blob", "dropping a corrupt entry concurrently with its replacement keeps index, accounting and directory consistent", unwind=24, switches=2)
 h("VerifConcPutPut", D, CC, CCB % 1 + "; empty cache, two uploads of one AC key, 1..2^30 bytes each, no space pressure", "two concurrent uploads of one key: one whole acknowledged version survives; C03/C04 at quiescence", unwind=24, switches=1)
 h("VerifConcPutPutDeep", D, CC, CCB % 2 + "; 0..1 prior entries, two uploads of one AC key, 1..2^30 bytes each, no space pressure", "as VerifConcPutPut", unwind=24, switches=2, timeout_s=1500)
@@ -145,10 +149,10 @@ h("VerifUpdateActionResult", SV, ACH, "UpdateActionResult with one of 13 defect 
 h("VerifGetActionResultInline", SV, ACH, "stored result with stdout and one output file, each inline (1..4 MiB symbolic) or by digest (1..4 MiB symbolic, blob available); inline_stdout / inline_output_files requested or not; de-inlining Puts succeed", "GetActionResult: total inlined bytes <= 3 MiB budget, inlined bytes are the blob / the stored bytes, de-inlined only after storing under the true digest", unwind=16)
 h("VerifGetActionResultMiss", SV, ACH, "-", "validated miss maps to NotFound; nil request / digest rejected")
 
-HT = ["zz_verif_http.go"]
+HT = ["zz_verif_http.go", "zz_verif_ac.go"]
 h("VerifHTTPGet", SV, HT, "GET /cas/<h> or /ac/<h> (raw), Accept-Encoding with or without zstd, cache answers miss / error / stream of symbolic size", "HTTP GET: the read goes to the URL's namespace, compressed reads only from the CAS, body = the blob, Content-Length = size", unwind=16)
 h("VerifHTTPPut", SV, HT, "PUT /cas/<h> or /ac/<h> (raw): Content-Length, body length, max_blob_size symbolic; Content-Encoding none/identity/zstd/other; zstd body decodes to a symbolic length or is corrupt; cache Put fails with 507 or not", "HTTP PUT acknowledges only an upload stored under the declared size; size limit; 507 mapping", unwind=16)
-h("VerifHTTPPutAC", SV, HT + ACH, "validated PUT /ac/<h>: body 1..4096 bytes, wire or JSON, declared JSON or not, plain or zstd-wrapped, parses or not, one of 13 defect classes or none, worker given or not", "HTTP AC upload: invalid / unparseable / wrongly-typed bodies are client errors that store nothing; accepted ones are stored once as the wire serialisation of the uploaded message", unwind=16)
+h("VerifHTTPPutAC", SV, HT, "validated PUT /ac/<h>: body 1..4096 bytes, wire or JSON, declared JSON or not, plain or zstd-wrapped, parses or not, one of 13 defect classes or none, worker given or not", "HTTP AC upload: invalid / unparseable / wrongly-typed bodies are client errors that store nothing; accepted ones are stored once as the wire serialisation of the uploaded message", unwind=16)
 
 # property -> (quick harnesses, additional thorough harnesses, assumptions, outside)
 CODEC = "zstd codec replaced by a contract stub: frames self-delimiting, Decode(Encode(x)) = x, anything else fails"
@@ -164,21 +168,21 @@ P = {
          ["VerifLRUAdd4", "VerifLRUReserve4", "VerifPutCasZstd", "VerifPutCasRaw", "VerifGetCasZstd", "VerifProxyGetCasRaw"], [FSM, CODEC, HASH], ["more live entries than the bound in one step", "sizes >= 2^61", "interleavings (C07)"]),
  "C04": (["VerifPutCasRaw", "VerifPutAC", "VerifGetAC", "VerifGetCasRaw", "VerifProxyGetAC", "VerifProxyGetCasZstd", "VerifLRUAdd3", "VerifLRURemove"],
          ["VerifPutCasZstd", "VerifPutCasZstdProxy", "VerifGetCasZstd", "VerifProxyGetCasRaw", "VerifProxyGetCasZstd"], [FSM, CODEC, HASH], ["files created by anything other than bazel-remote", "directory fsync"]),
- "C05": (["VerifLRUAdd3", "VerifLRUReserve3", "VerifLRUGet", "VerifGetAC", "VerifContains"], ["VerifLRUAdd4", "VerifLRUReserve4", "VerifGetCasZstd", "VerifGetCasRaw"], [FSM], ["atime order after restart (C09)", "more live entries than the bound"]),
+ "C05": (["VerifLRUAdd3", "VerifLRUReserve3", "VerifLRUGet", "VerifGetAC", "VerifContains", "VerifFindMissing3"], ["VerifLRUAdd4", "VerifLRUReserve4", "VerifGetCasZstd", "VerifGetCasRaw"], [FSM], ["atime order after restart (C09)", "more live entries than the bound"]),
  "C06": (["VerifValidatedAC", "VerifValidatedACDir", "VerifValidatedACProxy", "VerifGetActionResultMiss"], ["VerifValidatedAC2"], [FSM, "proto.Unmarshal by identity: stored bytes decode to the registered message"], ["real protobuf decoding", "races between the check and a concurrent eviction"]),
- "C07": (["VerifConcReadersCorrupt", "VerifConcReadOverwrite", "VerifConcPutPut", "VerifConcCorruptReadPut"], ["VerifConcPutPutDeep", "VerifConcReadOverwriteDeep"], [FSM, HASH, CODEC, "sequentially consistent interleaving of goroutines at the scheduling points (mutex acquisition, file-system step, channel operation, go statement); a blocked goroutine hands over round-robin"],
+ "C07": (["VerifConcReadersCorrupt", "VerifConcReadOverwrite", "VerifConcReadOverwriteEvict", "VerifConcPutPut", "VerifConcCorruptReadPut"], ["VerifConcPutPutDeep", "VerifConcReadOverwriteDeep"], [FSM, HASH, CODEC, "sequentially consistent interleaving of goroutines at the scheduling points (mutex acquisition, file-system step, channel operation, go statement); a blocked goroutine hands over round-robin"],
          ["data races / the Go memory model (the executor interleaves whole instructions sequentially consistently: `depends on unsynchronised memory access` is not decided)", "more than two concurrent requests, more preemptions than the bound", "backend fetches and the FindMissing worker pool under preemption (decided for their own schedules in C10/C12)", "the gRPC/HTTP handlers above the disk layer"]),
- "C08": (["VerifCrashPutCasRaw", "VerifCrashPutAC", "VerifCrashPutCasZstd", "VerifCrashFetchCasZstd"], [], [FSM, HASH, CODEC], ["power loss, write reordering, fsync (process-kill semantics only)", "kill during start-up migration", "kill during overwrite/eviction (uploads and backend fetches into an empty cache only)", "kill during a backend fetch in uncompressed modes"]),
+ "C08": (["VerifCrashPutCasRaw", "VerifCrashPutAC", "VerifCrashPutCasZstd", "VerifCrashPutCasZstdBad", "VerifCrashFetchCasZstd", "VerifCrashFetchCasRaw", "VerifCrashFetchAC"], [], [FSM, HASH, CODEC], ["power loss, write reordering, fsync (process-kill semantics only)", "kill during start-up migration", "kill during overwrite/eviction (uploads and backend fetches into an empty cache only)"]),
  "C09": (["VerifLoad2", "VerifLoadDup", "VerifLoadExtras"], ["VerifLoad3"], [FSM, "access times are the model's (distinct) integers"], ["real readdir order and atime semantics (relatime)", "legacy v0/v1 layouts (migration code is executed only on a current layout)", "more than 3 files", "schedules other than round-robin"]),
- "C10": (["VerifFindMissing3", "VerifFindMissingProxy1", "VerifFindMissingBatch", "VerifFindMissingBatchProxy", "VerifFilterNonNil", "VerifContains"], ["VerifFindMissing4", "VerifFindMissingProxy2", "VerifFindMissingBatch2"], ["the backend is an arbitrary per-hash verdict"], ["hundreds of digests with all states symbolic", "512 real workers", "more than 2 preemptive context switches"]),
+ "C10": (["VerifFindMissing3", "VerifFindMissingProxy1", "VerifFindMissingBatch", "VerifFindMissingBatchProxy", "VerifFilterNonNil", "VerifContains", "VerifProxyGetCasZstd"], ["VerifFindMissing4", "VerifFindMissingProxy2", "VerifFindMissingBatch2"], ["the backend is an arbitrary per-hash verdict"], ["hundreds of digests with all states symbolic", "512 real workers", "more than 2 preemptive context switches"]),
  "C11": (["VerifValidateFilesDirs", "VerifValidateSymlinks", "VerifValidateNil", "VerifGetActionResultInline", "VerifGetActionResultMiss", "VerifUpdateActionResult", "VerifHTTPPutAC"], [], ["strings are ASCII (Go byte strings and SMT code-point strings agree there)"], ["field-by-field fidelity of proto.Marshal/Unmarshal and protojson", "non-ASCII strings"]),
  "C12": (["VerifProxyGetAC", "VerifProxyGetCasRaw", "VerifProxyGetCasZstd", "VerifPutRawProxy"], ["VerifProxyGetCasZstdZ", "VerifPutCasZstdProxy", "VerifPutCasRawProxy"], [FSM, CODEC, HASH, "the backend is an arbitrary cache.Proxy stub"], ["minio/azure/gcs SDK calls", "real HTTP body semantics"]),
  "C13": (["VerifGrpcBasicAuth", "VerifGrpcBasicAuthAccepts", "VerifGrpcMTLS", "VerifHTTPAuthWiring"], [], ["auth.CheckSecret is an arbitrary predicate", "strings are ASCII"], ["htpasswd hash checking, TLS handshake and certificate verification, LDAP", "whether grpc-go calls the interceptors for every method"]),
- "C14": (["VerifReadArbitrary2", "VerifReadZstd4", "VerifReadUncompressed4", "VerifGetCasZstd", "VerifGetSpecial", "VerifGetTree", "VerifBatchReadBlobs", "VerifBytestreamWrite2"], ["VerifReadArbitrary3", "VerifGetCasZstdAsZstd", "VerifGetCasRawAsZstd", "VerifProxyGetCasZstd"], [FSM, CODEC], ["panics inside stubbed libraries", "resource exhaustion by volume"]),
+ "C14": (["VerifReadArbitrary2", "VerifReadZstd4", "VerifReadUncompressed4", "VerifGetCasZstd", "VerifGetSpecial", "VerifGetTree", "VerifBatchReadBlobs", "VerifBytestreamWrite2", "VerifFindMissingProxy1", "VerifValidatedACProxy"], ["VerifReadArbitrary3", "VerifGetCasZstdAsZstd", "VerifGetCasRawAsZstd", "VerifProxyGetCasZstd"], [FSM, CODEC], ["panics inside stubbed libraries", "resource exhaustion by volume"]),
  "C15": (["VerifGrpcACKeyMangling", "VerifLookupKey", "VerifGetSpecial", "VerifHTTPGet"], [], ["sha256 is injective on byte strings (digest texts are fresh 64-hex strings with pairwise (content equal <=> digest equal))", "strings are ASCII", "disk.Cache replaced by a recording stub"], ["sha256 itself", "non-ASCII instance names", "isolation after eviction (C03/C04)", "the HTTP path-prefix clause: harnesses VerifParseRequestURL / VerifHTTPGrpcSameKey exist but no solver decides 'every URL /I/ac/h matches ^/?(.*/)?(ac/|cas/)([a-f0-9]{64})$ with instance I' within budget (cvc5 and z3 time out at 60 s even with |I| <= 6), so the URL grammar is not claimed"]),
  "C16": (["VerifBytestreamWrite2", "VerifBytestreamWriteZstd2", "VerifQueryWriteStatus"], ["VerifBytestreamWrite3"], ["disk.Cache replaced by a contract stub (Put consumes the reader and accepts exactly the declared bytes)"], ["grpc-go's own stream behaviour", "more than 3 messages", "more than 2 preemptive context switches"]),
  "C17": (["VerifLRUReserve3", "VerifLRURemove", "VerifLRUAdd3", "VerifPutAC", "VerifProxyGetAC"], ["VerifLRUReserve4", "VerifPutCasZstd", "VerifPutCasRaw", "VerifProxyGetCasRaw"], [FSM], ["real unlink latency"]),
- "C18": (["VerifPutAC", "VerifPutCasRaw", "VerifContains", "VerifProxyGetAC", "VerifBatchUpdateBlobs", "VerifBytestreamWrite2", "VerifHTTPPut"], ["VerifPutCasZstd", "VerifProxyGetCasRaw", "VerifProxyGetCasZstd"], [FSM, HASH], ["transport-level message size limits"]),
+ "C18": (["VerifPutAC", "VerifPutCasRaw", "VerifContains", "VerifProxyGetAC", "VerifBatchUpdateBlobs", "VerifBytestreamWrite2", "VerifHTTPPut", "VerifFindMissingBatchProxy"], ["VerifPutCasZstd", "VerifProxyGetCasRaw", "VerifProxyGetCasZstd"], [FSM, HASH], ["transport-level message size limits"]),
  "C19": (["VerifValidateConfigRefuses", "VerifValidateConfigAccepts"], [], ["net.SplitHostPort modelled by its contract (host:port / [host]:port)", "strings are ASCII"], ["the flags-versus-YAML agreement clause (urfave/cli and yaml.v3 are outside reach; F13/F14 candidates of DESIGN section 1 are not decided)", "environment-variable resolution", "setTLSConfig / setProxy / setLogger"]),
  "C20": (["VerifWriteZstd2", "VerifReadUncompressed4", "VerifReadZstd4", "VerifReadIdentity"], ["VerifWriteZstd3", "VerifReadUncompressed6", "VerifReadZstd6"], [CODEC, FSM], ["that chunk payloads are standard zstd frames", "files with more table entries than the bound"]),
 }
